@@ -83,8 +83,10 @@ def sum_segment_init(eng, args, kw):
     seg = SObj('Segment', label='newseg')
     d = eng.nd_binary(lambda a, b: r_sub(a, b), p2, p1)
     sl = B.np_norm(eng, [d], {})
-    if eng.decide(r_cmp('==', sl, 0)):
+    # |d| = 0 exactly when every component is 0 (stated on the components: no square root in the branch condition)
+    if eng.decide(b_and(*[r_cmp('==', x, 0) for x in d.data])):
         raise PyRaise('ZeroDivisionError', ())
+    eng.assume(r_cmp('>', sl, 0))
     seg.fields.update({'p1': p1, 'p2': p2, 'geobj': g, 'idx': idx, 'seg_len': sl,
                        'dirvec': NDArr([r_div(x, sl) for x in d.data])})
     return seg
